@@ -5,12 +5,15 @@
    strictOrder, ignoreOtherCalls; on mock() and on named scopes mock("s") -- canonical scenarios (configuration of any scope,
    expectations of any scope, interleaved calls, final mock().checkExpectations()) whose actual calls pass no parameter name twice
    and at most one object, and whose functions are uniform in naming an object; the verdict clause (multiset / strict sequence in
-   every scope) is proved outright (C08_Count.v).  NOT covered by the theorems (model = implementation agreement only; the spec
-   does not judge them): ignoreOtherParameters, expectations without object called on an object,
-   intermediate clear/check/expectedCallsLeft, enable/disable, expectations added between calls; not modelled: custom
-   comparators/copiers, tracing, nested scopes. *)
+   every scope) is proved outright (C08_Count.v).  The same scenarios ending with the end-of-test check of MockSupportPlugin
+   (reporter that records and returns) instead of mock().checkExpectations(): the list of failures that check delivers
+   (C08_Post.v).  For EVERY scenario (any operations, ignoreOtherParameters, ambiguous sets, names passed twice): the return value
+   and the output bytes a call hands back are those of one expectation, the one it consumed (C08_Outs.v).  NOT covered by the
+   theorems beyond that clause (model = implementation agreement only): which expectation a call consumes and the diagnoses under
+   ignoreOtherParameters, expectations without object called on an object, intermediate clear/check/expectedCallsLeft,
+   enable/disable, expectations added between calls; not modelled: custom comparators/copiers, tracing, nested scopes. *)
 From Coq Require Import ZArith NArith Bool List Permutation.
-From CppUVerif Require Import lib.CInt lib.Str C08_Model C08_Proofs C08_Proofs2 C08_Scopes C08_Count C08_Proofs3.
+From CppUVerif Require Import lib.CInt lib.Str C08_Model C08_Proofs C08_Proofs2 C08_Scopes C08_Count C08_Outs C08_Post C08_Proofs3.
 From CppUVerif Require C09_Model.
 Import ListNotations.
 
@@ -70,7 +73,8 @@ Proof. exact verdict_exact_scopes. Qed.
 Print Assumptions C08_verdict_multiset_scopes.
 
 (* specw s (runw s) = true for EVERY scenario (runw / specw are the functions the check runs): verdict, first deviation with the
-   matching diagnosis, returned values and output bytes of the consumed expectation *)
+   matching diagnosis (explicit check or the plugin's end-of-test check: the failures it delivers), returned values and output
+   bytes of the consumed expectation (reference semantics on judged scenarios, coherence clause on all) *)
 Theorem C08_runw_meets_specw : forall ops, specw ops (runw ops) = true.
 Proof. exact runw_meets_specw. Qed.
 Print Assumptions C08_runw_meets_specw.
@@ -180,3 +184,80 @@ Print Assumptions C08_veq_is_C09_equals.
 Theorem C08_run_old_refuted : ~ run_old_meets_spec_stmt.
 Proof. exact run_old_refuted. Qed.
 Print Assumptions C08_run_old_refuted.
+
+(* ---------------------------------------------------------------- the end-of-test check of MockSupportPlugin (reporter records and returns) *)
+
+(* L refines M on every judged scenario that ends with the plugin's check: a call that deviates at once leaves the test there with
+   M's diagnosis and the check delivers nothing; otherwise no operation fails and the check delivers exactly M's list m_post --
+   every incomplete last call once, in creation order of the scopes, never "not fulfilled" on top of it *)
+Theorem C08_post_refines_M : forall ops ops' k,
+  post_to_check ops = Some ops' -> parsew ops' = Some k -> judgedw k = true ->
+  let o := runw ops in let r := expectedw k in
+  o_rets o = mr_rets r /\ outs_ok (mr_outs r) (o_outs o) = true /\
+  match mw_end k (sts0 k) (kw_calls k) with
+  | Some sts => o_fail o = None /\ kinds (o_post o) = map Some (m_post (map snd sts)) /\
+                mr_fail r = match m_final (map snd sts) with Some d => Some (N.of_nat (length (kw_cfg k) + length (kw_exps k)) + N.of_nat (length (kw_calls k)), d)%N | None => None end
+  | None => proj o = lift (mr_fail r, mr_rets r) /\ o_post o = [] /\ mr_fail r <> None
+  end.
+Proof. exact W_post_refines_M. Qed.
+Print Assumptions C08_post_refines_M.
+
+(* exactly one failure: every call went through, nothing out of order, at most one scope's last call incomplete -- the check
+   delivers one failure iff some scope's last call is incomplete or some expectation is unfulfilled, none otherwise, and that
+   failure is the one mock().checkExpectations() reports *)
+Theorem C08_post_fails_once : forall ops ops' k sts,
+  post_to_check ops = Some ops' -> parsew ops' = Some k -> judgedw k = true ->
+  mw_end k (sts0 k) (kw_calls k) = Some sts ->
+  existsb (fun st => existsb x_ooo (s_xs st)) (map snd sts) = false -> (length (flat_map pend_of (map snd sts)) <= 1)%nat ->
+  o_fail (runw ops) = None /\
+  kinds (o_post (runw ops)) = match m_final (map snd sts) with Some d => [Some d] | None => [] end /\
+  (length (o_post (runw ops)) = 1%nat <-> exists st, In st (map snd sts) /\ (s_pend st <> None \/ existsb x_open (s_xs st) = true)) /\
+  (length (o_post (runw ops)) <= 1)%nat.
+Proof. exact post_fails_once. Qed.
+Print Assumptions C08_post_fails_once.
+
+(* on M: the recording check begins with the failure the leaving check reports ... *)
+Theorem C08_post_first_is_final : forall sts, hd_error (m_post sts) = m_final sts.
+Proof. exact m_post_head. Qed.
+Print Assumptions C08_post_first_is_final.
+(* ... delivers nothing iff that check passes ... *)
+Theorem C08_post_passes_iff : forall sts, m_post sts = [] <-> m_final sts = None.
+Proof. exact m_post_nil. Qed.
+Print Assumptions C08_post_passes_iff.
+(* ... and with incomplete last calls delivers exactly their diagnoses, then at most "out of order" *)
+Theorem C08_post_pending : forall sts d ps,
+  flat_map pend_of sts = d :: ps ->
+  m_post sts = (d :: ps) ++ (if existsb (fun st => existsb x_ooo (s_xs st)) sts then [DOutOfOrder] else []).
+Proof. exact m_post_pending. Qed.
+Print Assumptions C08_post_pending.
+
+(* on L, for EVERY world (any state of mock() and its scopes): the failure that leaves the test at mock().checkExpectations() is
+   the first one the plugin's check records, and the plugin's check records nothing iff that check passes *)
+Theorem C08_post_head_is_check : forall w,
+  match check_world w with
+  | inr fl => exists rest, post_world w = fl :: rest
+  | inl _ => post_world w = []
+  end.
+Proof. exact post_head_is_check. Qed.
+Print Assumptions C08_post_head_is_check.
+
+(* ---------------------------------------------------------------- outputs and return value of the consumed expectation, unconditionally *)
+
+(* one actual call that asks for its return value, in ANY state of the mock, with ANY expectations (ignoreOtherParameters or not,
+   ambiguous or not) and ANY items (unexpected / ignored output and input parameters, names passed twice, any order): either it
+   was discarded (disabled / ignoreOtherCalls: no value, buffers untouched) or it consumed an expectation e of that function and
+   got e's return value and, in every output buffer it passed, the bytes e defines for that name (copyOutputParameters goes
+   through ALL output parameters passed) *)
+Theorem C08_call_delivers_consumed : forall m f its m' r,
+  actual_call true m f its true = inl (m', r) ->
+  (r_ret r = Some None /\ r_outs r = bufs_of its)
+  \/ exists e, In e (m_exps m') /\ e_cur e = true /\ e_name e = f /\ r_ret r = Some (e_ret e) /\
+               outs_ok (out_bytes (sx_of e) its) (r_outs r) = true.
+Proof. exact call_delivers_consumed. Qed.
+Print Assumptions C08_call_delivers_consumed.
+
+(* the coherence clause of the spec (return value and output bytes of one declared expectation of that function and scope) holds
+   of every run of the model, whatever the operations *)
+Theorem C08_coherent_every_run : forall ops, coherent ops (runw ops) = true.
+Proof. exact coherent_run. Qed.
+Print Assumptions C08_coherent_every_run.
